@@ -17,26 +17,38 @@ import fw
 
 sys.path.insert(0, os.path.join(fw.VERIF, "translators"))
 import members_extract  # noqa: E402
+import py2lean_add  # noqa: E402
 
-LEAN_PROPS = ["NmlVerif.Props.C10"]
+LEAN_PROPS = ["NmlVerif.Props.C10", "NmlVerif.Props.C10Gen", "NmlVerif.Props.C10Fix", "NmlVerif.Props.C10Hist",
+              "NmlVerif.Props.C10Xsd"]
 LEVEL = "proof"
-RULE = ("streams: (members) every generated class: real _get_members() vs model; (pairs) for EVERY parent class one "
+RULE = ("streams: (members) every generated class: real _get_members() vs the TRANSLATED method; (getmembers-history) "
+        "random histories of _get_members() calls from a cache-less state: result and which classes carry which "
+        "__all_members_ dict after every call; (pairs) for EVERY parent class one "
         "history whose calls cover every child class with a non-empty candidate set x hints {none, '', each "
-        "candidate, a non-candidate member name, garbage} x force, the same object / an equal copy added again, "
-        "plus child classes without candidate (quick: 10 sampled per parent, thorough: all 199 -> all 199x199 pairs); "
+        "candidate, near misses, a non-candidate member name, garbage} x force, the same object / an equal copy added "
+        "again, plus child classes without candidate (quick: 10 sampled per parent + EVERY child class that is a base "
+        "or a derived class of one of the parent's member types, thorough: all 199 -> all 199x199 pairs); "
         "(history) random histories on the 8 multi-candidate parents and container-rich parents with XML-loaded "
-        "children, corrupted parents, all 4 gate settings. A call is non-trivial when the candidate set is non-empty; "
-        "distinct = distinct (parent class, child class, hint kind, force, gate, slot state, outcome)")
+        "children, corrupted parents, all 4 gate settings; (eq) the generated __eq__ on every class: the fully set "
+        "component vs each one-member variant; (neareq) for every child class some list member holds: the fully set "
+        "child, an equal copy, then every variant that differs in exactly ONE member (own / inherited / trailing "
+        "underscore / xs:any list / None / another numeric type of the same value / a child component or list one "
+        "level down); (multi) several parents sharing children, pool objects that are parents themselves. "
+        "A call is non-trivial when the candidate set is non-empty; "
+        "distinct = distinct (parent class, child class, hint kind, force, gate, slot state, outcome, variant kind)")
 TRUST = [
     "translators/members_extract.py (ast shapes of member_data_items_/MemberSpec_); its output is compared with the real _get_members() of every class on every run",
-    "hand-written model of add/__add/_get_members and of the generated __eq__ (Model/Add.lean), tied by correspondence only",
-    "validate() is a parameter of the model (its verdict is taken from the real validate() per call); its relation to the schema is C02/C03",
+    "translators/py2lean_add.py (statement vocabulary of add/__add/_get_members, shape of __eq__/__same_contents): validated by running the TRANSLATED methods in the driver against the real ones on every call of every stream; Props/C10Gen.lean proves translated = hand model",
+    "translators/members_bridge.py only proposes the renaming Gen.Members -> Gen.Names; that it preserves the strings and carries one table onto the other is decided by the kernel (Props/C10Xsd.lean)",
+    "validate() and str(child) are parameters of the model (their verdicts are taken from the real calls); the relation of validate() to the schema is C02/C03",
 ]
 ASSUMPTIONS = [
     "single inheritance among generated classes (checked by the translator; multiple bases are reported as a gap)",
-    "attribute values are None/str/int/float/bool/lists/generated objects/lxml elements; equal atoms have equal type and repr (no 1 == 1.0 == True mixes)",
-    "generated classes define no __bool__/__len__ (instances are truthy) and children are not mutated while a history runs",
-    "the ValueError raised by the validation that FOLLOWS a placement leaves the child stored: outside the property statement (c10_raise_unchanged states it exactly)",
+    "attribute values are None/str/int/float/bool/lists/generated objects/lxml elements; numbers compare by exact value across int/float/bool as Python does (no NaN; other value kinds compare by type and repr)",
+    "generated classes define no __bool__/__len__ (instances are truthy); a stored child that is changed between two calls is covered call by call (stream multi), not by the model's own state threading",
+    "the ValueError raised by the validation that FOLLOWS a placement leaves the child stored: outside the property statement (c10_raise_unchanged / c10_invalid_keeps_child state it exactly)",
+    "add(None) / add(<class or name>, **kwargs) are component_factory business (C09); the translated add() marks them `outside` (c10_gen_add_other_kinds)",
 ]
 
 EXCL = ("parent_object_", "gds_collector_")
@@ -130,6 +142,10 @@ def _is_node(v):
 
 
 def atom_token(v):
+    """canonical token of a plain value: `<type>:<repr>`; a finite float also carries its exact value
+    (`float:0.5=1/2`) so that the Lean model can decide Python's cross-type numeric `==` (1 == 1.0 == True)"""
+    if type(v) is float and v == v and v not in (float("inf"), float("-inf")):
+        return "float:%r=%d/%d" % ((v,) + v.as_integer_ratio())
     return "%s:%r" % (type(v).__name__, v)
 
 
@@ -177,21 +193,43 @@ def snap_diff(before, after):
     return out, gone
 
 
+def attr_of(member_name):
+    """instance attribute that holds a member: the `xs:any` pseudo member `__ANY__` lives in `anytypeobjs_`"""
+    return "anytypeobjs_" if member_name == "__ANY__" else member_name
+
+
+def atoms_equal(a, b):
+    """Python's `==` on plain values, restated: numbers (int / float / bool) compare by exact numeric value whatever
+    their type, everything else needs the same type"""
+    num = (int, float, bool)
+    if isinstance(a, num) and isinstance(b, num):
+        try:
+            from fractions import Fraction
+            return Fraction(a) == Fraction(b)
+        except (ValueError, OverflowError):      # nan / inf
+            return a == b
+    return type(a) is type(b) and a == b
+
+
 def value_equal(a, b):
     """equality of the VALUES of two components: same class and, member by member (inherited ones included),
     equal content. Independent of the generated __eq__ (ignores lxml nodes and other bookkeeping attributes)."""
     if _is_gen(a) or _is_gen(b):
         if type(a) is not type(b):
             return False
-        for m in type(a)._get_members():
-            n = m.get_name()
+        for n, _dt, _c, _o in ref_members(type(a)):
+            n = attr_of(n)
+            if not value_equal(getattr(a, n, None), getattr(b, n, None)):
+                return False
+        # generateDS keeps two more pieces of CONTENT outside the member table: xsi:type and simple-content text
+        for n in ("extensiontype_", "valueOf_"):
             if not value_equal(getattr(a, n, None), getattr(b, n, None)):
                 return False
         return True
     if isinstance(a, list) or isinstance(b, list):
         return (isinstance(a, list) and isinstance(b, list) and len(a) == len(b)
                 and all(value_equal(x, y) for x, y in zip(a, b)))
-    return type(a) is type(b) and a == b
+    return atoms_equal(a, b)
 
 
 def has_node(o, depth=0):
@@ -272,8 +310,34 @@ def _walk(doc, key):
     return o
 
 
+def build_value(v, loaded=None):
+    """a JSON value of a script -> Python value: plain atoms as they are, {"$o": entry} a component built by
+    `build_entry`, {"$l": [values]} a list"""
+    if isinstance(v, dict) and "$o" in v:
+        return build_entry(v["$o"], loaded)
+    if isinstance(v, dict) and "$l" in v:
+        return [build_value(x, loaded) for x in v["$l"]]
+    return v
+
+
+def build_entry(e, loaded=None):
+    """one pool entry -> object.  {"cls", "kw": constructor keywords (the constructor's casts apply),
+    "attrs": attributes assigned afterwards (stored as given)} | {"xml": path, "copy": k} | {"junk": kind}"""
+    C = classes()
+    if "xml" in e:
+        return _walk(loaded(e.get("copy", 0)), e["xml"])
+    if "junk" in e:
+        return {"int": 5, "float": 2.5, "obj": object()}[e["junk"]]
+    kw = dict((k, build_value(v, loaded)) for k, v in sorted(e.get("kw", {}).items()))
+    with quiet():
+        o = C[e["cls"]](**kw)
+    for k, v in sorted(e.get("attrs", {}).items()):
+        setattr(o, k, build_value(v, loaded))
+    return o
+
+
 class Mat:
-    """materialise one script: parent, pool"""
+    """materialise one script: parent (+ further parents), pool"""
 
     def __init__(self, script):
         import neuroml.loaders as L
@@ -285,29 +349,24 @@ class Mat:
                 with quiet():
                     self.docs[copy] = L.read_neuroml2_string(xml_text(), include_includes=False)
             return self.docs[copy]
-        pd = script["parent"]
-        with quiet():
-            self.parent = C[pd["cls"]]()
-        for k, v in sorted(pd.get("attrs", {}).items()):
-            setattr(self.parent, k, v)
-        for c in pd.get("corrupt", []):
-            if c[0] == "del":
-                if c[1] in vars(self.parent):
-                    delattr(self.parent, c[1])
-            else:
-                setattr(self.parent, c[1], c[2])
-        self.pool = []
-        for e in script["pool"]:
-            if "xml" in e:
-                self.pool.append(_walk(loaded(e.get("copy", 0)), e["xml"]))
-            elif "junk" in e:
-                self.pool.append({"int": 5, "float": 2.5, "obj": object()}[e["junk"]])
-            else:
-                with quiet():
-                    o = C[e["cls"]]()
-                for k, v in sorted(e.get("attrs", {}).items()):
-                    setattr(o, k, v)
-                self.pool.append(o)
+        self.pool = [build_entry(e, loaded) for e in script["pool"]]
+        self.parents = []
+        for pd in [script["parent"]] + list(script.get("parents", [])):
+            if "pool" in pd:                       # a pool object that is also used as a parent
+                self.parents.append(self.pool[pd["pool"]])
+                continue
+            with quiet():
+                par = C[pd["cls"]]()
+            for k, v in sorted(pd.get("attrs", {}).items()):
+                setattr(par, k, build_value(v, loaded))
+            for c in pd.get("corrupt", []):
+                if c[0] == "del":
+                    if c[1] in vars(par):
+                        delattr(par, c[1])
+                else:
+                    setattr(par, c[1], c[2])
+            self.parents.append(par)
+        self.parent = self.parents[0]
 
 
 def classify_exc(e):
@@ -359,16 +418,24 @@ def validity(o):
 
 # ------------------------------------------------------------------ run one script on the real library
 def run_real(script):
-    """-> (model line, per-call real records)"""
+    """-> (model lines, per-call real records).  Ordinary scripts: ONE model line (the model carries its own parent
+    state from call to call).  `percall` scripts (several parents, pool objects that are parents themselves, so that
+    a stored child may change between two calls): one model line per call, parent and child serialised right
+    before the call."""
     mat = Mat(script)
     ids = Ids()
-    parent, pool = mat.parent, mat.pool
-    line = {"op": "seq", "parent": ser_obj(parent, ids), "pool": [ser_obj(c, ids) for c in pool], "calls": []}
-    if script.get("algo"):
-        line["algo"] = script["algo"]
+    pool = mat.pool
+    percall = bool(script.get("percall")) or len(mat.parents) > 1
+    lines = []
+    if not percall:
+        line = {"op": "seq", "parent": ser_obj(mat.parent, ids), "pool": [ser_obj(c, ids) for c in pool], "calls": []}
+        if script.get("algo"):
+            line["algo"] = script["algo"]
+        lines.append(line)
     recs = []
     saved = get_switch()
-    for call in script["calls"]:
+    for ci, call in enumerate(script["calls"]):
+        parent = mat.parents[call.get("p", 0)]
         child = pool[call["c"]]
         try:
             with quiet():
@@ -376,10 +443,21 @@ def run_real(script):
             sok = True
         except Exception:  # noqa
             sok = False
+        if percall:
+            line = {"op": "seq", "parent": ser_obj(parent, ids),
+                    "pool": [ser_obj(child, ids)], "calls": []}
+            lines.append(line)
         before = snapshot(parent, ids)
+        others_before = [(k, json.dumps(snapshot(o, ids))) for k, o in enumerate(mat.parents) if o is not parent]
+        child_before = json.dumps(snapshot(child, ids)) if (_is_gen(child) and child is not parent) else None
         members = [(n, d, c) for n, d, c, _o in ref_members(type(parent))]
         slot_before = dict((n, vars(parent)[n]) for n, _d, _c in members if n in vars(parent))
         list_before = dict((n, list(v)) for n, v in slot_before.items() if isinstance(v, list))
+        # judged NOW (in a multi-parent history a stored child may be changed by a later call)
+        cn = type(child).__name__
+        taken_val = dict((n, any(value_equal(child, x) for x in list_before[n]))
+                         for n, d, c in members if d == cn and c and n in list_before)
+        xml_inv = dict((n, has_node(child) or any(has_node(x) for x in list_before[n])) for n in taken_val)
         ret, exc, tags = None, None, []
         try:
             set_switch(call["en"])
@@ -395,6 +473,8 @@ def run_real(script):
             set_switch(saved)
         after = snapshot(parent, ids)
         ch, gone = snap_diff(before, after)
+        others_changed = [k for k, b in others_before if json.dumps(snapshot(mat.parents[k], ids)) != b]
+        child_changed = child_before is not None and json.dumps(snapshot(child, ids)) != child_before
         pv = validity(parent)
         rec = {"r": "ok" if exc is None else "err:" + classify_exc(exc),
                "w": tags[0] if len(tags) == 1 else (None if not tags else "+".join(tags)),
@@ -403,11 +483,13 @@ def run_real(script):
         recs.append({"rec": rec, "gone": gone, "pv": pv, "ret_is_child": ret is child, "exc": exc,
                      "members": members, "slot_before": slot_before, "list_before": list_before,
                      "switch_ok": switch_after == call["en"], "sok": sok, "child": child, "parent": parent,
+                     "taken_val": taken_val, "xml_inv": xml_inv, "others_changed": others_changed, "child_changed": child_changed,
+                     "line": len(lines) - 1, "pos": 0 if percall else ci,
                      "after": dict((n, (list(vars(parent).get(n)) if isinstance(vars(parent).get(n), list)
                                         else vars(parent).get(n))) for n, _d, _c in members)})
-        line["calls"].append({"c": call["c"], "hint": call["hint"], "force": call["force"], "en": call["en"],
-                              "val": call["val"], "pv": bool(pv), "sok": sok})
-    return line, recs
+        line["calls"].append({"c": 0 if percall else call["c"], "hint": call["hint"], "force": call["force"],
+                              "en": call["en"], "val": call["val"], "pv": bool(pv), "sok": sok})
+    return lines, recs
 
 
 # ------------------------------------------------------------------ oracle: the property on the real objects
@@ -429,6 +511,10 @@ def oracle(ctx, script, i, call, R):
         fail("C10:attribute-deleted", "attributes %s disappeared" % R["gone"])
     if not R["switch_ok"]:
         fail("C10:switch-changed", "add() changed build_time_validation.ENABLED")
+    if R.get("others_changed"):
+        fail("C10:other-parent-changed", "add() on one parent changed other parents (script parents %s)" % R["others_changed"])
+    if R.get("child_changed"):
+        fail("C10:child-changed", "add() changed an attribute of the child it was given")
     # selection
     sel, why = None, None
     if len(cands) == 0:
@@ -460,7 +546,7 @@ def oracle(ctx, script, i, call, R):
             fail("C10:raise-changed-parent:malformed", "add() raised (%s) but changed %s" % (rec["r"], changed))
         return "malformed"
     if container != 0:
-        taken = any(value_equal(child, x) for x in R["list_before"][name])
+        taken = R["taken_val"][name]
     else:
         taken = bool(cur)
     others = [k for k in changed if k != name]
@@ -483,7 +569,7 @@ def oracle(ctx, script, i, call, R):
     now = R["after"].get(name)
     if taken and not force:
         if name in changed:
-            xml = has_node(child) or any(has_node(x) for x in (R["list_before"].get(name) or []))
+            xml = R["xml_inv"].get(name, False)
             key = "C10:dup-not-refused:xml-loaded" if (container != 0 and xml) else \
                   ("C10:dup-not-refused" if container != 0 else "C10:occupied-overwritten")
             fail(key, "member %s already held %s; force is off, yet the child was stored" %
@@ -543,9 +629,11 @@ def gen_pairs_script(rng, pname, all_children):
     pool, calls = [], []
     member_names = sorted(m[0] for m in ms)
 
-    def add_call(ci, hint, force, p_on=0.15):
+    def add_call(ci, hint, force, p_on=0.15, kind=None):
         en, val = gate_choice(rng, p_on)
         calls.append({"c": ci, "hint": hint, "force": force, "en": en, "val": val})
+        if kind:
+            calls[-1]["kind"] = kind
     for cname in sorted(by_type):
         if cname not in C:
             continue
@@ -580,14 +668,41 @@ def gen_pairs_script(rng, pname, all_children):
     others = [c for c in all_children if c not in by_type]
     for cname in others:
         pool.append(child_entry(rng, cname, 0))
+        rel = cname in related_children(pname)
         add_call(len(pool) - 1, rng.choice([None, None, "zz_no_such_member", rng.choice(member_names) if member_names else None]),
-                 rng.random() < 0.3, p_on=0.05)
+                 rng.random() < 0.3, p_on=0.05, kind="no-member:related-by-inheritance" if rel else None)
+        if rel:      # also with the name of the member that holds the related type as hint
+            for m in ms:
+                if m[1] in C and (m[1] in [b.__name__ for b in C[cname].__mro__[1:]] or
+                                  cname in [b.__name__ for b in C[m[1]].__mro__[1:]]):
+                    pool.append(child_entry(rng, cname, 1))
+                    add_call(len(pool) - 1, m[0], rng.random() < 0.5, p_on=0.05, kind="no-member:related-by-inheritance")
+                    break
     # keep candidate calls and no-candidate calls interleaved
     k = len(calls)
     order = list(range(k))
     rng.shuffle(order)
     calls = [calls[i] for i in order]
     return {"parent": {"cls": pname, "attrs": {}}, "pool": pool, "calls": calls}
+
+
+_RELATED = None
+
+
+def related_children(pname):
+    """child classes for which the parent declares NO member, but declares one for a base class or for a derived
+    class of the child (`add` matches the exact class name: such a child must be refused like any other) — always
+    part of the pairs stream, also in the quick tier"""
+    global _RELATED
+    if _RELATED is None:
+        C = classes()
+        bases = {n: [b.__name__ for b in c.__mro__[1:] if b.__name__ in C] for n, c in C.items()}
+        _RELATED = {}
+        for p, pc in C.items():
+            T = {m[1] for m in ref_members(pc) if m[1] in C}
+            _RELATED[p] = sorted(c for c in C if c not in T and
+                                 (set(bases[c]) & T or any(c in bases[t] for t in T)))
+    return _RELATED[pname]
 
 
 MULTI = None
@@ -681,6 +796,184 @@ def gen_history_script(rng):
     return {"parent": {"cls": pname, "attrs": attrs, "corrupt": corrupt}, "pool": pool, "calls": calls}
 
 
+# ------------------------------------------------------------------ nearly equal children (vary ONE member at a time)
+INT_TYPES = ("NonNegativeInteger", "xs:nonNegativeInteger", "PositiveInteger", "xs:integer", "xs:int", "xs:positiveInteger")
+FLOAT_TYPES = ("xs:float", "xs:double", "ZeroToOne", "DoubleGreaterThanZero")
+
+
+def simple_values(dt):
+    """(base value, a different value, [values that are EQUAL to the base although of another type])"""
+    if dt in INT_TYPES:
+        return 1, 2, [1.0, True]
+    if dt in FLOAT_TYPES:
+        return 0.5, 0.25, []
+    return "a", "b", []
+
+
+_KWVALS = {}
+
+
+def kw_values(cname, n, dt):
+    """like `simple_values`, but values the CONSTRUCTOR accepts for this member (some constructors cast: a member of
+    a quantity type may go through `float(...)`); found by trying, cached"""
+    key = (cname, n)
+    if key not in _KWVALS:
+        first = simple_values(dt)
+        for cand in [first, (0.5, 0.25, []), (1, 2, [1.0, True]), ("a", "b", [])]:
+            try:
+                with quiet():
+                    o1, o2 = classes()[cname](**{n: cand[0]}), classes()[cname](**{n: cand[1]})
+                if not atoms_equal(getattr(o1, n), getattr(o2, n)):
+                    _KWVALS[key] = cand
+                    break
+            except Exception:  # noqa
+                continue
+        else:
+            _KWVALS[key] = None
+    return _KWVALS[key]
+
+
+def full_entry(cname, via):
+    """a component with EVERY simple single-valued member set (own and inherited, whatever its Python name);
+    `via` = "kw": through the constructor (its casts apply), "attrs": assigned afterwards"""
+    C = classes()
+    vals = {}
+    for n, dt, cont, _o in ref_members(C[cname]):
+        if dt in C or cont or n == "__ANY__":
+            continue
+        if via == "kw":
+            kv = kw_values(cname, n, dt)
+            if kv is None:
+                continue
+            vals[n] = kv[0]
+        else:
+            vals[n] = simple_values(dt)[0]
+    return {"cls": cname, via: vals}
+
+
+def _with(entry, via, name, value):
+    e = json.loads(json.dumps(entry))
+    e.setdefault(via, {})[name] = value
+    if via == "attrs" and name in e.get("kw", {}):
+        del e["kw"][name]
+    return e
+
+
+def near_variants(rng, cname, via, deep_budget):
+    """entries that differ from `full_entry(cname, via)` in exactly ONE member -> [(kind, entry)]:
+    every simple member (incl. inherited ones and those whose Python name is not the XML name: `from_`), the xs:any
+    list, every component-valued member (None vs a component; one level down: two components that differ in one of
+    THEIR members), every list-valued member ([] vs [x]; [x] vs [x']; [x] vs [x, x])."""
+    C = classes()
+    base = full_entry(cname, via)
+    out = []
+    for n, dt, cont, _o in ref_members(C[cname]):
+        tag = "inherited" if n not in [m.name for m in C[cname].__dict__.get("member_data_items_", [])] else "own"
+        us = ":underscore" if attr_of(n).endswith("_") else ""
+        if n == "__ANY__":
+            out.append(("any-list" + us, _with(base, "attrs", "anytypeobjs_", {"$l": ["x"]})))
+            out.append(("any-list" + us, _with(base, "attrs", "anytypeobjs_", {"$l": ["y"]})))
+        elif dt not in C and not cont:
+            b, v, same = (kw_values(cname, n, dt) or simple_values(dt)) if via == "kw" else simple_values(dt)
+            if via == "kw" and kw_values(cname, n, dt) is None:
+                out.append(("simple:%s%s" % (tag, us), _with(base, "attrs", n, v)))
+            else:
+                out.append(("simple:%s%s" % (tag, us), _with(base, via, n, v)))
+            out.append(("simple-none:%s%s" % (tag, us), _with(base, "attrs", n, None)))
+            for sv in same:          # another type, SAME value: equal to the base (Python's ==); must be refused
+                out.append(("simple-crosstype", _with(base, "attrs", n, sv)))
+        elif dt not in C:
+            out.append(("simple-list", _with(base, "attrs", n, {"$l": ["x"]})))
+        else:
+            sub = full_entry(dt, "attrs")
+            wrap = (lambda xs: {"$l": [{"$o": x} for x in xs]}) if cont else (lambda xs: {"$o": xs[0]})
+            out.append(("child-%s:%s" % ("list" if cont else "single", tag), _with(base, "attrs", n, wrap([sub]))))
+            if cont:
+                out.append(("child-list-twice", _with(base, "attrs", n, wrap([sub, sub]))))
+            subm = [(sn, sdt) for sn, sdt, scont, _ in ref_members(C[dt]) if sdt not in C and not scont and sn != "__ANY__"]
+            subm.sort(key=lambda x: (not x[0].endswith("_"), x[0]))
+            picks = subm[:1] + (rng.sample(subm[1:], min(len(subm) - 1, deep_budget)) if len(subm) > 1 else [])
+            for sn, sdt in picks:
+                sub2 = _with(sub, "attrs", sn, simple_values(sdt)[1])
+                out.append(("child-deep%s" % (":underscore" if sn.endswith("_") else ""),
+                            _with(base, "attrs", n, wrap([sub2]))))
+    return base, out
+
+
+_HOLDERS = None
+
+
+def holders():
+    """child class -> [(parent class, container member, number of candidates for that child class in the parent)]"""
+    global _HOLDERS
+    if _HOLDERS is None:
+        C = classes()
+        h = {}
+        for pn, pc in C.items():
+            ms = ref_members(pc)
+            for n, dt, cont, _o in ms:
+                if dt in C and cont:
+                    h.setdefault(dt, []).append((pn, n, len([1 for m in ms if m[1] == dt])))
+        _HOLDERS = h
+    return _HOLDERS
+
+
+def gen_neareq_script(rng, cname, deep_budget):
+    """one history on a parent that holds `cname` children in a list: the fully set child, an equal copy (refused),
+    then every one-member variant (stored: it is NOT equal to anything present), a sample of equal copies of
+    variants (refused), one forced"""
+    pn, member, ncand = rng.choice(holders()[cname])
+    via = rng.choice(["kw", "attrs"])
+    base, variants = near_variants(rng, cname, via, deep_budget)
+    hint = member if ncand > 1 else rng.choice([None, None, member])
+    pool, calls = [base, json.loads(json.dumps(base))], []
+
+    def call(ci, kind, force=False):
+        en, val = gate_choice(rng, 0.05)
+        calls.append({"c": ci, "hint": hint, "force": force, "en": en, "val": val, "kind": kind})
+    call(0, "base")
+    call(1, "base-copy")
+    rng.shuffle(variants)
+    for kind, e in variants:
+        pool.append(e)
+        call(len(pool) - 1, kind)
+        if rng.random() < 0.25:
+            pool.append(json.loads(json.dumps(e)))
+            call(len(pool) - 1, kind + ":copy", force=rng.random() < 0.2)
+    call(0, "base-again")
+    return {"parent": {"cls": pn, "attrs": {}}, "pool": pool, "calls": calls}
+
+
+def gen_multi_script(rng):
+    """several parents, children shared between them, pool objects that are parents themselves (a stored child is
+    changed between two calls): the same object into two parents, the same object twice, an equal copy after the
+    stored original was changed, forced replacement of a single-valued member"""
+    C = classes()
+    pool = [{"cls": "Network", "attrs": {"id": "n0"}}, {"cls": "Network", "attrs": {"id": "n0"}},
+            {"cls": "Population", "attrs": {"id": "p0"}}, {"cls": "Population", "attrs": {"id": "p0"}},
+            {"cls": "Population", "attrs": {"id": "p1"}}, {"cls": "Instance", "attrs": {"id": 0}},
+            {"cls": "Instance", "attrs": {"id": 0}}, {"cls": "Cell", "attrs": {"id": "c0"}},
+            {"cls": "Morphology", "attrs": {"id": "m0"}}, {"cls": "Morphology", "attrs": {"id": "m1"}},
+            {"cls": "Segment", "attrs": {"id": 0}}, {"cls": "Segment", "attrs": {"id": 0}},
+            {"cls": "Cell", "attrs": {"id": "c0"}}, {"cls": "Layout", "attrs": {}}, {"cls": "Layout", "attrs": {}}]
+    # parents: 0,1 = two documents; then every pool object that can hold something
+    parents = [{"cls": "NeuroMLDocument", "attrs": {"id": "d1"}}] + [{"pool": i} for i in (0, 1, 2, 3, 7, 8, 9, 12)]
+    pidx = {"d0": 0, "d1": 1, 0: 2, 1: 3, 2: 4, 3: 5, 7: 6, 8: 7, 9: 8, 12: 9}
+    accepts = {"d0": [0, 1, 7, 12], "d1": [0, 1, 7, 12], 0: [2, 3, 4], 1: [2, 3, 4], 2: [5, 6, 13, 14], 3: [5, 6, 13, 14],
+               7: [8, 9], 12: [8, 9], 8: [10, 11], 9: [10, 11]}
+    calls = []
+    for _ in range(rng.randint(8, 26)):
+        par = rng.choice(sorted(accepts, key=str))
+        ci = rng.choice(accepts[par])
+        if rng.random() < 0.08:
+            ci = rng.randrange(len(pool))           # most likely no candidate
+        en, val = gate_choice(rng, 0.1)
+        calls.append({"c": ci, "p": pidx[par], "hint": None, "force": rng.random() < 0.25, "en": en, "val": val,
+                      "kind": "multi"})
+    return {"parent": {"cls": "NeuroMLDocument", "attrs": {"id": "d0"}}, "parents": parents, "pool": pool,
+            "calls": calls, "percall": True}
+
+
 # ------------------------------------------------------------------ corpus
 def _call(c, hint=None, force=False, en=True, val=False):
     return {"c": c, "hint": hint, "force": force, "en": en, "val": val}
@@ -742,42 +1035,192 @@ def check_members(ctx):
 
 
 def run_scripts(ctx, scripts, stream):
-    lines, recs_all = [], []
+    lines, recs_all, first = [], [], []
     for s in scripts:
-        line, recs = run_real(s)
-        lines.append(json.dumps(line))
+        ls, recs = run_real(s)
+        first.append(len(lines))
+        lines += [json.dumps(l) for l in ls]
         recs_all.append(recs)
     rc, out = fw.run_driver("C10", lines, timeout=3000)
-    if rc != 0 or len(out) != len(lines):
+    ok = rc == 0 and len(out) == len(lines)
+    if not ok:
         ctx.disagree("driver", "%s: driver failed rc=%s (%d/%d lines)" % (stream, rc, len(out), len(lines)),
                      "\n".join(out[-3:])[:500], None)
-        out = [None] * len(lines)
-    for s, recs, l in zip(scripts, recs_all, out):
-        model = json.loads(l)["res"] if l else [None] * len(recs)
+    res = [json.loads(l)["res"] for l in out] if ok else None
+    for s, recs, f0 in zip(scripts, recs_all, first):
         for i, (call, R) in enumerate(zip(s["calls"], recs)):
             bucket = oracle(ctx, s, i, call, R)
             cname = type(R["child"]).__name__
             ncand = len([m for m in R["members"] if m[1] == cname])
             ctx.count("%s:%s" % (stream, bucket))
+            if call.get("kind") and stream in ("pairs", "neareq"):
+                ctx.count("kind:%s" % call["kind"].split(":copy")[0])
             ctx.count("result:" + R["rec"]["r"].split(":")[1] if ":" in R["rec"]["r"] else "result:ok")
             hk = ("none" if not call["hint"] else
                   ("cand" if any(m[0] == call["hint"] and m[1] == cname for m in R["members"]) else
                    ("member" if any(m[0] == call["hint"] for m in R["members"]) else "garbage")))
-            ctx.seen([s["parent"]["cls"], cname, hk, call["force"], call["en"], call["val"], bucket, R["rec"]["r"]],
+            ctx.seen([type(R["parent"]).__name__, cname, hk, call["force"], call["en"], call["val"], bucket, R["rec"]["r"],
+                      call.get("kind")],
                      nontrivial=ncand > 0)
-            if l is not None:
+            if res is not None:
                 ctx.corr_evals += 1
-                if model[i] != R["rec"]:
-                    ctx.disagree(stream, {"script": s, "call": i}, R["rec"], model[i])
+                model = res[f0 + R["line"]][R["pos"]]
+                if model != R["rec"]:
+                    ctx.disagree(stream, {"script": s, "call": i}, R["rec"], model)
         if s["calls"]:
             ctx.sample({"parent": s["parent"], "calls": s["calls"][:3], "pool": s["pool"][:3],
                         "first_results": [r["rec"]["r"] for r in recs[:3]]})
 
 
+def check_eq(ctx, budget):
+    """stream **eq**: the generated `__eq__` itself, on every class (also those no list member holds): the fully set
+    component against each of its one-member variants, both ways round, real `==` vs model; the oracle's
+    member-wise value equality must say the same unless an lxml node is involved"""
+    C = classes()
+    lines, cases = [], []
+    for cname in C:
+        try:
+            base_e, variants = near_variants(ctx.rng, cname, "attrs", budget)
+        except Exception as e:  # noqa
+            ctx.disagree("eq", {"cls": cname}, "generator failed: %r" % (e,), None)
+            continue
+        ids = Ids()
+        base = build_entry(base_e)
+        objs = [("copy", build_entry(base_e))] + [(k, build_entry(e)) for k, e in variants]
+        for kind, o in objs:
+            for a, b in ((base, o), (o, base)):
+                with quiet():
+                    real = bool(a == b)
+                    ne = bool(a != b)
+                lines.append(json.dumps({"op": "eq", "a": ser_obj(a, ids), "b": ser_obj(b, ids)}))
+                cases.append((cname, kind, real, ne, value_equal(a, b)))
+    rc, out = fw.run_driver("C10", lines, timeout=3000)
+    if rc != 0 or len(out) != len(lines):
+        ctx.disagree("driver", "eq stream: driver failed rc=%s" % rc, "\n".join(out[-3:])[:300], None)
+        return
+    for (cname, kind, real, ne, want), l in zip(cases, out):
+        m = json.loads(l)
+        ctx.corr_evals += 1
+        ctx.count("eq:%s:%s" % (kind.split(":")[0], "equal" if real else "different"))
+        if m.get("strict") != real or ne == real:
+            ctx.disagree("eq", {"cls": cname, "kind": kind}, {"eq": real, "ne": ne}, m)
+        elif real != want:
+            # the oracle's own notion of equal content disagrees with the generated __eq__ (no node is involved here)
+            ctx.disagree("eq-oracle", {"cls": cname, "kind": kind}, {"eq": real}, {"value_equal": want})
+    ctx.extra["eq_classes"] = len(C)
+
+
+CACHE_ATTR = "_GeneratedsSuperSuper__all_members_"
+
+
+def check_members_history(ctx, n_hist, length):
+    """stream **getmembers-history**: `_get_members()` is a classmethod with a per-class cache kept in class
+    attributes (`cls.__all_members_`, created on whichever class asks first and found by derived classes through
+    attribute lookup).  From a state without any cache (the attribute is removed from every class first — it is only
+    a cache), call it on random classes (a class, its bases, its derived classes, repeats) and compare with the
+    translated method run on the same history: the list returned AND, after every call, which classes carry a dict
+    of their own with which keys."""
+    C = classes()
+    names = list(C)
+    subs = {}
+    for n, c in C.items():
+        for b in c.__mro__[1:]:
+            if b.__name__ in C:
+                subs.setdefault(b.__name__, []).append(n)
+
+    def all_klasses():
+        out, seen = [], set()
+        for c in C.values():
+            for k in c.__mro__:
+                if k is not object and id(k) not in seen:
+                    seen.add(id(k))
+                    out.append(k)
+        return out
+
+    lines, reals = [], []
+    for _ in range(n_hist):
+        for k in all_klasses():
+            if CACHE_ATTR in k.__dict__:
+                delattr(k, CACHE_ATTR)
+        seq, cur = [], ctx.rng.choice(names)
+        for _i in range(length):
+            r = ctx.rng.random()
+            bases = [b.__name__ for b in C[cur].__mro__[1:] if b.__name__ in C]
+            if r < 0.3 and bases:
+                cur = ctx.rng.choice(bases)
+            elif r < 0.6 and subs.get(cur):
+                cur = ctx.rng.choice(subs[cur])
+            elif r < 0.75 and seq:
+                cur = ctx.rng.choice(seq)
+            else:
+                cur = ctx.rng.choice(names)
+            seq.append(cur)
+        real = []
+        for cn in seq:
+            ms = sorted(real_members(C[cn]))
+            dicts = sorted([k.__name__, sorted(k.__dict__[CACHE_ATTR])] for k in all_klasses() if CACHE_ATTR in k.__dict__)
+            real.append((ms, dicts))
+        lines.append(json.dumps({"op": "members_seq", "classes": seq}))
+        reals.append((seq, real))
+    rc, out = fw.run_driver("C10", lines, timeout=3000)
+    if rc != 0 or len(out) != len(lines):
+        ctx.disagree("driver", "getmembers-history: driver failed rc=%s" % rc, "\n".join(out[-3:])[:300], None)
+        return
+    for (seq, real), l in zip(reals, out):
+        res = json.loads(l)["res"]
+        for i, ((ms, dicts), m) in enumerate(zip(real, res)):
+            ctx.corr_evals += 1
+            ctx.count("getmembers-history:%s" % ("cached" if seq[i] in seq[:i] else "first"))
+            mm = sorted(tuple([x[0], x[1], int(bool(x[2])), int(bool(x[3]))]) for x in m.get("members", []))
+            md = sorted([d[0], sorted(d[1])] for d in m.get("dicts", []))
+            if m.get("stuck") or mm != ms or md != dicts:
+                ctx.disagree("getmembers-history", {"classes": seq, "call": i}, {"members": ms, "dicts": dicts},
+                             {"members": mm, "dicts": md, "stuck": m.get("stuck", False)})
+                break
+
+
+def measure_eq_coverage(ctx):
+    """`GeneratedsSuper.__eq__` / `__ne__` are defined inside a `try: … except:` block of nml.py, where fw's anchor
+    lookup (module / class level only) does not find them; the coverage fw collects does include their lines, so
+    the hit/missed statements are read from it here (measurement only)."""
+    try:
+        import ast
+        import coverage
+        cov = coverage.Coverage.current()
+        if cov is None:
+            return
+        path = os.path.realpath(os.path.join(fw.REPO, "neuroml", "nml", "nml.py"))
+        with open(path) as fh:
+            tree = ast.parse(fh.read())
+        spans = {}
+        for k in ast.walk(tree):
+            if isinstance(k, ast.ClassDef) and k.name == "GeneratedsSuper":
+                for it in k.body:
+                    if isinstance(it, ast.FunctionDef) and it.name in ("__eq__", "__ne__"):
+                        spans[it.name] = (it.body[0].lineno, it.end_lineno)
+        _f, stmts, _e, missing, _m = cov.analysis2(path)
+        out = {}
+        for n, (a, b) in spans.items():
+            body = [l for l in stmts if a <= l <= b]
+            miss = [l for l in body if l in set(missing)]
+            out["neuroml/nml/nml.py::GeneratedsSuper.%s" % n] = {"statements": len(body), "hit": len(body) - len(miss),
+                                                                 "missed_lines": miss}
+        ctx.extra["eq_anchor_coverage"] = out
+    except Exception as e:  # noqa
+        ctx.extra["eq_anchor_coverage"] = {"error": repr(e)}
+
+
 def regenerate(ctx):
     gaps, summ = members_extract.regenerate(fw.REPO, fw.LEAN)
     ctx.extra["member_table"] = summ
-    return gaps
+    gaps2 = py2lean_add.regenerate(fw.REPO, os.path.join(fw.LEAN, "NmlVerif", "Gen", "AddImpl.lean"))
+    ctx.extra["add_translation_gaps"] = len(gaps2)
+    # C10 against the schema (Props/C10Xsd.lean): binding + schema tables of C11 from the SAME tree, and the renaming
+    import bindgen
+    import members_bridge
+    ir = bindgen.IR()
+    ctx.extra["members_bridge"] = members_bridge.regenerate(fw.REPO, fw.LEAN, ir.names)
+    return gaps + gaps2 + ["bindings/xsd translator: %s" % g for g in ir.gaps]
 
 
 def run(ctx):
@@ -786,6 +1229,7 @@ def run(ctx):
     saved = get_switch()
     try:
         check_members(ctx)
+        check_members_history(ctx, ctx.n(12, 60) * ctx.search_mult, 40)
         run_scripts(ctx, [json.loads(json.dumps(c)) for c in CORPUS], "corpus")
         # pairs: every parent class; every candidate-bearing child class; no-candidate classes sampled / all
         scripts = []
@@ -794,6 +1238,7 @@ def run(ctx):
                 others = names
             else:
                 others = ctx.rng.sample(names, 10 * ctx.search_mult if 10 * ctx.search_mult < len(names) else len(names))
+                others = others + [c for c in related_children(p) if c not in others]
             scripts.append(gen_pairs_script(ctx.rng, p, others))
         run_scripts(ctx, scripts, "pairs")
         ctx.extra["pairs_parent_classes"] = len(names)
@@ -803,6 +1248,15 @@ def run(ctx):
                 len(names), len(names), len(names))
         n = ctx.n(150, 1200) * ctx.search_mult
         run_scripts(ctx, [gen_history_script(ctx.rng) for _ in range(n)], "history")
+        # nearly equal children: every child class that some list member holds, every member varied on its own
+        deep = ctx.n(1, 4)
+        check_eq(ctx, deep)
+        hs = sorted(holders())
+        run_scripts(ctx, [gen_neareq_script(ctx.rng, c, deep) for c in hs for _ in range(ctx.n(1, 2) * ctx.search_mult)],
+                    "neareq")
+        ctx.extra["neareq_child_classes"] = len(hs)
+        run_scripts(ctx, [gen_multi_script(ctx.rng) for _ in range(ctx.n(40, 300) * ctx.search_mult)], "multi")
+        measure_eq_coverage(ctx)
     finally:
         set_switch(saved)
 
